@@ -162,6 +162,10 @@ pub fn dash_path(path: &Path, dash_array: &[f32], mut dash_offset: f32) -> Path 
                     if state.on {
                         if first_dash {
                             // If we're still on the first dash we can just close
+                            // once the part of it that we've been holding back is emitted
+                            for pt in initial_segment.iter().skip(1) {
+                                dashed.line_to(pt.x, pt.y);
+                            }
                             dashed.close();
                         } else {
                             if initial_segment.len() > 0 {
